@@ -141,6 +141,11 @@ parse_comp(const char *str, int *n_objs, comp_info_t *comp)
                         if (l == -1)
                             stype[m] = c;
                         else {
+                            /* the mask has its two characters already */
+                            if (l >= (int)sizeof(smask) - 1) {
+                                printf("Input Error: szip mask must be 'NN' or 'EC' \n");
+                                goto out;
+                            }
                             smask[l] = c;
                             l++;
                             if (l == 2) {
